@@ -16,6 +16,8 @@ ASSUMPTIONS = [
 LEVEL_TEXT = ("Bounded symbolic model checking of Get/Put of every registered block type on the real code: for a symbolic version "
               "and symbolic input bytes the written block Y1 is re-read (must consume exactly |Y1| bytes) and re-written (must equal "
               "Y1 byte for byte, solver equality over symbolic cells).  Every version gate is split at its true boundary by z3.")
+LEVEL_TEXT += ("  A second block-level entry (h_strings, file >= 20.1.0.3, valid string indices) repeats the round trip under the real "
+               "life cycle of string references: FillStringRefs after Get, UpdateHeaderStrings before Put.")
 LEVEL_NOTE = "Bounds B/L/budget as in evidence; stream + libstdc++ externals are models (DESIGN.md 2.5); file-level F-model runs complement the block level."
 AIDS = ("C01-",)
 
@@ -28,6 +30,7 @@ def owns_violation(v):
 
 def jobs(tier, seed):
     J = fblock.jobs_for("h_roundtrip", tier, seed)
+    J += fblock.jobs_for("h_strings", tier, seed, budget_quick=4, budget_thorough=45)
     for j in J:
         j["mod"] = "fblock"
     J += fmfile.jobs("h_file_fixedpoint", tier, sympos=True)
